@@ -2522,3 +2522,34 @@ mod tests {
         Ok(())
     }
 }
+
+/// Visibility-only re-exports for the external verification harness (no behaviour).
+#[cfg(beanpuppy_corrosion_verif)]
+pub mod verif_hooks {
+    use super::*;
+
+    pub fn chunk_range_versions(
+        range: RangeInclusive<CrsqlDbVersion>,
+        chunk_size: usize,
+    ) -> Vec<RangeInclusive<CrsqlDbVersion>> {
+        chunk_range(range, chunk_size).collect()
+    }
+
+    pub fn handle_need(
+        conn: &mut Connection,
+        actor_id: ActorId,
+        need: SyncNeedV1,
+        sender: &Sender<SyncMessage>,
+    ) -> eyre::Result<()> {
+        super::handle_need(conn, actor_id, need, sender)
+    }
+
+    pub async fn process_sync(
+        pool: SplitPool,
+        bookie: Bookie,
+        sender: Sender<SyncMessage>,
+        recv: mpsc::Receiver<SyncRequestV1>,
+    ) -> eyre::Result<()> {
+        super::process_sync(pool, bookie, sender, recv).await
+    }
+}
